@@ -280,7 +280,7 @@ func c17ProbeGauss(c *Ctx) {
 	}
 	// big-number path
 	for i := 0; i < c.Scale(10, 100); i++ {
-		sb := c17SigmaBoundBig[c.rng.Intn(len(c17SigmaBoundBig))]
+		sb := c17SigmaBoundBig[i%len(c17SigmaBoundBig)]
 		cfgs = append(cfgs, cfg{sb[0], sb[1], c17PickChain(c, 2+c.rng.Intn(2)), "big"})
 	}
 	for _, g := range cfgs {
